@@ -355,23 +355,23 @@ theorem assignList_typed {p : PropRec} (vs : List PyVal) (h : Typed p) : Typed (
     · exact h
     · rename_i cells hconv
       split
-      · exact resize_typed _ h
+      · exact h
       · rcases convertAll_spec hall with ⟨cs, hcs, _, _, hok⟩ | ⟨he, _⟩
         · rw [hcs] at hconv
           cases hconv
           exact hok
         · rw [he] at hconv; cases hconv
 
-/-- result of `assignList`: success stores exactly the denoted cells; a refusal by the type check and
-an OverflowError of the conversion leave the property untouched; the only error that comes after
-the resize is h5py's ValueError for an embedded NUL -/
+/-- result of `assignList`: success stores exactly the denoted cells; a refusal by the type check, an
+OverflowError of the conversion and the ValueError for text containing NUL leave the property
+untouched -/
 theorem assignList_result (p : PropRec) (vs : List PyVal) :
     (∃ cells, assignList p vs = ({ p with vals := cells }, .ok ()) ∧ cellsOf? vs = some cells ∧
         checkNewValueTypes p.dtype (.list vs) = .ok ()) ∨
     (∃ e, assignList p vs = (p, .error e) ∧
         (checkNewValueTypes p.dtype (.list vs) = .error e ∨
          (checkNewValueTypes p.dtype (.list vs) = .ok () ∧ e = .overflowError))) ∨
-    (assignList p vs = ({ p with vals := resize p.dtype p.vals vs.length }, .error .valueError) ∧
+    (assignList p vs = (p, .error .valueError) ∧
         checkNewValueTypes p.dtype (.list vs) = .ok ()) := by
   cases hchk : checkNewValueTypes p.dtype (.list vs) with
   | error e =>
@@ -445,19 +445,16 @@ theorem setValues_typed {p : PropRec} {inp : Input} (hwf : inp.WF = true) (h : T
     simp at hwf
     exact hwf.2.2 c hc
 
-/-- anything the `values` setter raises, except h5py's ValueError for an embedded NUL, leaves the
-property exactly as it was -/
-theorem setValues_refused {p : PropRec} {inp : Input} {e : Err} (h : (setValues p inp).2 = .error e)
-    (he : e ≠ .valueError) : (setValues p inp).1 = p := by
+/-- anything the `values` setter raises leaves the property exactly as it was -/
+theorem setValues_refused {p : PropRec} {inp : Input} {e : Err} (h : (setValues p inp).2 = .error e) :
+    (setValues p inp).1 = p := by
   rcases setValues_cases p inp with ⟨h', _⟩ | ⟨vs, h', _⟩ | ⟨e', h', _⟩ | ⟨dt, n, data, _, _, h'⟩
   · rw [h'] at h; simp at h
   · rw [h'] at h ⊢
     rcases assignList_result p vs with ⟨cells, hres, _⟩ | ⟨e', hres, _⟩ | ⟨hres, _⟩
     · rw [hres] at h; simp at h
     · rw [hres]
-    · rw [hres] at h
-      simp at h
-      exact absurd h.symm he
+    · rw [hres]
   · rw [h']
   · rw [h'] at h; simp at h
 
@@ -557,8 +554,7 @@ theorem extendValues_cases (p : PropRec) (inp : Input) (hwf : inp.WF = true) :
     (∃ cs, checkNewValueTypes p.dtype inp = .ok () ∧ inp.appended? = some cs ∧
         (∀ c ∈ cs, cellOk p.dtype c = true) ∧
         ((extendValues p inp = ({ p with vals := p.vals ++ cs }, .ok ())) ∨
-         (extendValues p inp =
-            ({ p with vals := p.vals ++ List.replicate cs.length p.dtype.fill }, .error .valueError)))) := by
+         (extendValues p inp = (p, .error .valueError)))) := by
   cases hchk : checkNewValueTypes p.dtype inp with
   | error e => left; exact ⟨e, rfl, by simp [extendValues, hchk]⟩
   | ok u =>
@@ -591,22 +587,16 @@ theorem extendValues_typed {p : PropRec} {inp : Input} (hwf : inp.WF = true) (h 
     rcases hc with hc | hc
     · exact h c hc
     · exact hok c hc
-  · rw [h']
-    intro c hc
-    simp only [List.mem_append, List.mem_replicate] at hc
-    rcases hc with hc | hc
-    · exact h c hc
-    · rw [hc.2]; exact fill_ok _
+  · rw [h']; exact h
 
-/-- `extend_values`: a refusal by the check — and an OverflowError of the conversion — leave the
-property untouched; only the NUL refusal of h5py comes after the resize -/
+/-- `extend_values`: whatever it raises, the property is untouched -/
 theorem extendValues_refused {p : PropRec} {inp : Input} {e : Err} (hwf : inp.WF = true)
-    (h : (extendValues p inp).2 = .error e) (he : e ≠ .valueError) : (extendValues p inp).1 = p := by
+    (h : (extendValues p inp).2 = .error e) : (extendValues p inp).1 = p := by
   rcases extendValues_cases p inp hwf with ⟨e', _, h'⟩ | ⟨_, h'⟩ | ⟨cs, _, _, _, h' | h'⟩
   · rw [h']
   · rw [h']
   · rw [h'] at h; simp at h
-  · rw [h'] at h; simp at h; exact absurd h.symm he
+  · rw [h']
 
 theorem extendValues_check_error {p : PropRec} {inp : Input} {e : Err}
     (h : checkNewValueTypes p.dtype inp = .error e) : extendValues p inp = (p, .error e) := by
